@@ -169,6 +169,17 @@ CHECKS = {
              "values inside lambdas.",
         ref="DESIGN.md 6 (C13)",
         technique="TLC-enumerated values x API entry points; TLC trace validation of LitEval(literal node) = value"),
+    "C05": dict(
+        text="A table of nine helpers (bare-parameter body, arithmetic, defaults, a lambda helper, inner lambdas re-binding "
+             "a parameter name, a helper calling a helper, an inner lambda using the outer parameter, keyword / default "
+             "parameters) is part of spec/Sem.tla: Eval gives h(args) the meaning 'Python calls the helper'. TLC "
+             "enumerates queries calling them (positional / keyword / re-ordered / defaulted, arguments over binders named "
+             "like the helpers' own parameters and inner binders); they are rendered into modules with the real defs and "
+             "real lambdas, run through the real capture + inlining code, and TLC judges the emitted query: compiles, "
+             "well-scoped (helpers may stay as calls by name) and Eval(emitted) = Eval(original) on every dataset.",
+        ref="DESIGN.md 6 (C05)",
+        technique="helper table in the TLA+ semantics; TLC-generated call sites rendered as real Python lambdas/defs; "
+                  "TLC trace validation by semantic equality"),
 }
 
 ORDER = ["C%02d" % i for i in range(1, 21)]
